@@ -351,6 +351,7 @@ class Monitor:
                 for a, kv in av.items():
                     for key, v in kv.items():
                         delivered[(sid, a, key)].append((tt, v))
+        return consumed
 
     def _reply_of(self, token):
         """(producer, step index) of a provenance token like 'A3' or 'A3e'"""
@@ -554,7 +555,24 @@ class Monitor:
 
     def finish(self, result):
         T = self.T
-        self.judge_inputs()
+        consumed = self.judge_inputs()
+        if result[0] == "ok":
+            # "no value is lost": an event sent over a triggering connection demands a step of
+            # the destination at its arrival time, where it is delivered -- in a run that came
+            # to its regular end every such value with an arrival time before `until` has been
+            for ci, c in enumerate(T.conns):
+                if not c.get("sattr") or T.is_persistent(c) or not T.is_trigger(c):
+                    continue
+                se = c.get("seid", "e")
+                lostv = [data[se]["eo"] for (pk, ptt, ott, data) in self.outs[c["src"]]
+                         if "eo" in data.get(se, {}) and T.arrive(c, ott)[0] < self.until
+                         and pk not in consumed[ci]]
+                if lostv:
+                    self.viol.append(dict(
+                        prop="C03", kind="event-value-never-delivered", cls=None, sim=c["dst"],
+                        at=self.n, msg=f"{c['dst']} never received {lostv[:3]} sent over connection "
+                                       f"{ci} ({c['src']}.{se}.eo -> {c.get('deid', 'e')}.{c['dattr']}) "
+                                       f"although run() returned normally"))
         exp_loop = self.expected_loop_error()
         # count-based reading of the guard for simulators with exactly one sub-step tier: more
         # than max_loop_iterations steps within one time step were performed
